@@ -40,6 +40,9 @@ func init() {
 			{ID: "C02.R19", Text: "the backend and the requested end are chosen by the documented values of metadata.type and dcp.mode (same rule as C15.R18)", Run: configPredicates},
 			{ID: "C02.R20", Text: "what is stored is what was handed over: the backends marshal the document they are given under the id of the same vBucket and write nothing else (same rule as C01.R6)", Run: c01r6},
 			{ID: "C02.R21", Text: "in read-only mode the session resumes from what the wrapped store holds now (same rule as C15.R22)", Run: readOnlyForwardsLoad},
+			{ID: "C02.R22", Text: "a session starts from the loaded positions and nothing else: the position writer is called only for acknowledgements and absorptions — Open does not push positions through it, where a late acknowledgement of the previous session would win (same rule as C01.R2)", Run: c01r2},
+			{ID: "C02.R23", Text: "read-only mode survives defaulting: no configured option is rewritten (same rule as C17.R1)", Run: c17r1},
+			{ID: "C02.R24", Text: "a session reads the checkpoints of its own group: the document key is a function of the group name and vBucket id of the call (same rule as C14.R4)", Run: c14r4},
 			{ID: "C02.R6", Text: "read-only wrapper: Save/Clear perform no call and return nil, Load forwards its parameters; Start wraps the metadata whenever Metadata.ReadOnly and under no other condition", Run: c02r6},
 		},
 	})
